@@ -2,7 +2,7 @@
 # tools/keep_seeded.sh <PROP> <k> '<confirm-json>' : copies a confirmed candidate into seeded/<PROP>-<k>/
 set -u
 cd "$(dirname "$0")/.."
-ID="$1"; K="$2"; CONF="$3"; O="/tmp/mut/$ID/OUT"; D="seeded/$ID-$K"
+ID="$1"; K="$2"; CONF="$3"; O="${MUTROOT:-/tmp/mut3}/$ID/OUT"; D="seeded/$ID-$K"
 mkdir -p "$D"
 cp "$O/patch$K.diff" "$D/patch.diff"
 for f in "$O/demo$K".* "$O/demo${K}_"*; do [ -f "$f" ] && case "$f" in *.log) ;; *) cp "$f" "$D/";; esac; done
@@ -13,7 +13,7 @@ pid,k,conf,d=sys.argv[1:5]
 c=json.loads(conf)
 notes=open(f"{d}/notes.md").read() if __import__('os').path.exists(f"{d}/notes.md") else ""
 meta={"property":pid,"name":f"{pid}-{k}","origin":"fresh sub-agent given only the property text and a scratch worktree",
-"needs_to_manifest":"see notes.md","confirmed_by_me":{"command":"tools/confirm_seeded.sh (scratch worktree /tmp/mut/%s: apply, build with and without the cfg guard, cargo test --release, demo on clean and on patched tree)"%pid, **c},
+"needs_to_manifest":"see notes.md","confirmed_by_me":{"command":"tools/confirm_seeded.sh (scratch worktree %s: apply, build with and without the cfg guard, cargo test --release, demo on clean and on patched tree)"%pid, **c},
 "checks_run":{}}
 json.dump(meta,open(f"{d}/meta.json","w"),indent=1)
 PY
